@@ -281,7 +281,7 @@ func TestC09(t *testing.T) {
 
 	// walks whose start or intermediate directory is removed or replaced while
 	// the walk is under way (engine of C07, schedules owned by the harness)
-	schedSubCheck(h, env.PerShard(env.Pick(1600, 80000)), []string{"e", "e", "k"}, keepC09)
+	schedSubCheck(h, env.PerShard(env.Pick(3200, 80000)), []string{"e", "e", "k"}, keepC09)
 
 	rapidCases(h, "names", env.PerShard(env.Pick(32000, 800000)), func(rt *rapid.T) nameCase {
 		c := nameCase{Native: rapid.Bool().Draw(rt, "native")}
